@@ -52,6 +52,20 @@ func c12Exec(c c12Case, st *lab.Stats) *lab.Fail {
 		}
 		return nil
 	}
+	if c.Late > 0 && c.Rounds > 1 && c.Order != "concurrent-start" {
+		// a storm: the same start / connect-flood / Stop cycle many times (what matters is the instant of
+		// Stop relative to the accept loop, which no single run controls)
+		for i := 0; i < c.Rounds; i++ {
+			one := c
+			one.Rounds = 1
+			one.Spin = c.Spin + i
+			if f := c12Exec(one, st); f != nil {
+				f.Message = fmt.Sprintf("cycle %d of %d: %s", i+1, c.Rounds, f.Message)
+				return f
+			}
+		}
+		return nil
+	}
 	port, err := lab.FreeLocalPort()
 	if err != nil {
 		st.Inconclusive(err.Error())
@@ -330,9 +344,13 @@ func c12Exec(c c12Case, st *lab.Stats) *lab.Fail {
 	var lateMu sync.Mutex
 	var lateConns []net.Conn
 	var lateWg sync.WaitGroup
+	fd0 := 0
 	if c.Late > 0 && c.Order != "before-run" && c.Order != "concurrent-start" {
 		// a finalizer must not close what the server forgot to close
 		defer debug.SetGCPercent(debug.SetGCPercent(-1))
+		if len(c.Conns) == 0 {
+			fd0 = socketFDs() - 1 // the server's listening socket will be gone
+		}
 		for g := 0; g < 2; g++ {
 			lateWg.Add(1)
 			go func() {
@@ -406,21 +424,38 @@ func c12Exec(c c12Case, st *lab.Stats) *lab.Fail {
 		return f
 	}
 	if len(late) > 0 {
-		// Stop and Run have returned: whatever the server accepted is closed, what it did not accept was reset
-		// when the listener went away - no client that managed to connect is left with an open connection
+		// Stop and Run have returned: whatever the server accepted is closed. What the client sees is not
+		// evidence enough - now and then the kernel leaves a client "established" towards a listener that
+		// went away before the handshake's last ACK was processed (no server-side socket exists, nothing was
+		// ever accepted; measured with a bare net.Listener too) - so the oracle is the server's side: this
+		// process must not hold more socket descriptors than the harness itself has open (collector off).
+		if len(c.Conns) == 0 {
+			want := fd0 + len(late)
+			got := socketFDs()
+			for dl := time.Now().Add(time.Second); got > want && time.Now().Before(dl); got = socketFDs() {
+				time.Sleep(2 * time.Millisecond)
+			}
+			if got > want {
+				return lab.Failf("connection-left-open-after-stop", "%s: 1 s after Stop and Run have returned this process holds %d socket descriptors, %d more than the harness's own %d client sockets (+%d before the server started): the server accepted connections and never closed them", desc, got, got-want, len(late), fd0)
+			}
+		}
 		buf := make([]byte, 256)
-		for i, cn := range late {
-			_ = cn.SetReadDeadline(time.Now().Add(3 * time.Second))
+		halfOpen := 0
+		for _, cn := range late {
+			_ = cn.SetReadDeadline(time.Now().Add(50 * time.Millisecond))
 			for {
 				_, err := cn.Read(buf)
 				if err == nil {
 					continue // e.g. the notice of disconnection
 				}
 				if ne, ok := err.(net.Error); ok && ne.Timeout() {
-					return lab.Failf("connection-left-open-after-stop", "%s: client #%d of them is still connected 3 s after Stop and Run have returned: the server accepted the connection and never closed it", desc, i)
+					halfOpen++
 				}
 				break
 			}
+		}
+		if halfOpen > 0 {
+			st.ClassN("late-client-still-established-without-server-side-socket", int64(halfOpen))
 		}
 		if d := atomic.LoadInt64(&oncloseDone); d != atReturnDone {
 			return lab.Failf("onclose-after-stop", "%s: %d OnClose callbacks had completed when Stop returned, %d a little later: connections were still being closed after Stop had returned", desc, atReturnDone, d)
@@ -432,7 +467,7 @@ func c12Exec(c c12Case, st *lab.Stats) *lab.Fail {
 func TestC12(t *testing.T) {
 	lab.Prop[c12Case]{
 		ID: "C12", Part: "stop",
-		Rule: "rapid: order of Stop relative to Run in {before Run, concurrently with Run's start (a sweep of 8..24 busy-wait delays of 0..1 ms after Run was started, plus 0..200 scheduler yields), after Ready, twice in sequence, twice concurrently} x 0..6 connections whose state at Stop time is handler held on a gate / handler sleeping / client just closed / OnClose callback held / requests + Unbind pipelined in one write with slow handlers (nobody waits for the answers) / the handler of the Unbind route itself held on the gate or sleeping; plain or TLS sessions; optionally 2 x 2..128 silent clients that connect WHILE Stop is being called (garbage collector off, a finalizer is not a close); every other client has closed (FIN, Unbind or RST) before Stop is called and the gate is opened by a timer 20..250 ms after Stop was called, never by Stop's return; oracle sampled at the instant EACH Stop call returns: in-flight handler counter == 0 and completed OnClose callbacks == accepted connections; after Run returned (must be nil): dial refused and the port can be bound again, every late client that managed to connect sees its connection closed within 3 s and no OnClose callback completes after Stop returned; second Stop harmless; non-trivial = >= 1 handler/OnClose still held when Stop was called, or Stop overlapped/preceded Run; distinct by hash",
+		Rule: "rapid: order of Stop relative to Run in {before Run, concurrently with Run's start (a sweep of 8..24 busy-wait delays of 0..1 ms after Run was started, plus 0..200 scheduler yields), after Ready, twice in sequence, twice concurrently} x 0..6 connections whose state at Stop time is handler held on a gate / handler sleeping / client just closed / OnClose callback held / requests + Unbind pipelined in one write with slow handlers (nobody waits for the answers) / the handler of the Unbind route itself held on the gate or sleeping; plain or TLS sessions; optionally 2 x 2..128 silent clients that connect WHILE Stop is being called (garbage collector off, a finalizer is not a close), half of those cases as a storm of 20..80 start / connect-flood / Stop cycles; every other client has closed (FIN, Unbind or RST) before Stop is called and the gate is opened by a timer 20..250 ms after Stop was called, never by Stop's return; oracle sampled at the instant EACH Stop call returns: in-flight handler counter == 0 and completed OnClose callbacks == accepted connections; after Run returned (must be nil): dial refused and the port can be bound again, in the storms the process holds no socket descriptor beyond the harness's own client sockets and no OnClose callback completes after Stop returned; second Stop harmless; non-trivial = >= 1 handler/OnClose still held when Stop was called, or Stop overlapped/preceded Run; distinct by hash",
 		Gen: func(t *rapid.T) c12Case {
 			late := 0
 			if rapid.IntRange(0, 2).Draw(t, "late") == 0 {
@@ -462,6 +497,11 @@ func TestC12(t *testing.T) {
 					for i := range c.Conns {
 						c.Conns[i].TLS = true
 					}
+				}
+				if c.Late > 0 && rapid.Bool().Draw(t, "storm") {
+					// a storm of start / connect-flood / Stop cycles without other connections
+					c.Conns = nil
+					c.Rounds = rapid.SampledFrom([]int{20, 40, 80}).Draw(t, "cycles")
 				}
 			}
 			return c
